@@ -237,9 +237,15 @@ def stream_specs(max_segments: int = 12, allow_enc: bool = True):
             skew_ms = draw(st.integers(-300, 300)) if kind != "video" else draw(st.sampled_from([0, 0, -40, 40]))
             target = (total_ms + skew_ms) * ts // 1000
             durs, acc, i = [], 0, 0
+            # occasionally one non-final segment is a runt (5-25 % of the nominal duration): legal, and a
+            # classic trap for code that divides by an average duration
+            runt_at = draw(st.sampled_from([None, None, None, None, 1, 2, 3]))
+            runt_pc = draw(st.integers(5, 25))
             while True:
                 j = 0 if regular else jit[i % len(jit)]
                 d = max(4, nominal + nominal * j // 1000)
+                if runt_at is not None and i == runt_at:
+                    d = max(4, nominal * runt_pc // 100)
                 if acc + d > target - max(4, nominal // 4):
                     break
                 durs.append(d)
